@@ -94,6 +94,16 @@ def main():
     if a.replay:
         with open(a.replay) as f:
             rp = json.load(f)
+        if str(rp.get("module", "")).startswith("smt:"):
+            pr = subprocess.run([PY, os.path.join(VERIF, rp["module"][4:]), "--replay", json.dumps(rp["args"])],
+                                cwd=VERIF, capture_output=True, text=True)
+            print(pr.stdout[-2000:])
+            ok = '"result": true' in pr.stdout
+            if ok:
+                print("replay: holds on this input (not reproduced)")
+                sys.exit(0)
+            print("VIOLATION property=%s replay=%s" % (prop, a.replay))
+            sys.exit(1)
         r = call_runner(rp["module"], rp["obligation"], "replay", part=rp.get("part", 0),
                         args=rp["args"], env_extra={"VERIF_REPLAY": "1", **rp.get("env", {})})
         print(json.dumps(r, indent=1))
@@ -195,6 +205,35 @@ def main():
                         pass
                 results.append(r)
 
+    # ---- (3b) kernels translated to SMT directly (engine/smt_*.py), regenerated from /repo's source on every run
+    for script in entry.get("smt", []):
+        if harness_errors or violations:
+            break
+        pr = subprocess.run([PY, os.path.join(VERIF, script)], cwd=VERIF, capture_output=True, text=True, timeout=900)
+        r = None
+        for line in reversed(pr.stdout.splitlines()):
+            if line.startswith("@@RESULT@@"):
+                r = json.loads(line[len("@@RESULT@@"):])
+                break
+        if r is None:
+            harness_errors.append("smt script %s gave no result: %s" % (script, (pr.stdout + pr.stderr)[-1200:]))
+            continue
+        r.update({"module": "smt:" + script, "obligation": r.get("name"), "part": 0, "twin": {"status": "n/a (direct SMT query)"},
+                  "confirmed_paths": r.get("paths", 0) if r.get("status") == "confirmed" else 0})
+        functions |= set(r.get("functions", []))
+        if r.get("status") == "refuted":
+            if r.get("reproduced"):
+                os.makedirs(os.path.join(VERIF, "replays"), exist_ok=True)
+                path = os.path.join(VERIF, "replays", "%s_%s.json" % (prop, r.get("name")))
+                with open(path, "w") as f:
+                    json.dump({"property": prop, "module": "smt:" + script, "obligation": r.get("name"), "part": 0,
+                               "args": r.get("counterexample")}, f, indent=1)
+                violations.append(path)
+                r["status"] = "refuted_reported"
+            else:
+                harness_errors.append("SMT counterexample did not reproduce on the real function: %s" % json.dumps(r)[:800])
+        results.append(r)
+
     # ---- (4) replay counterexamples
     os.makedirs(os.path.join(VERIF, "replays"), exist_ok=True)
     for r in results:
@@ -254,7 +293,7 @@ def main():
             "obligations": n_ob,
             "discharged": len(confirmed),
             "inconclusive": len(unknown),
-            "refuted": len([r for r in results if r.get("status") == "refuted"]),
+            "refuted": len([r for r in results if r.get("status") in ("refuted", "refuted_reported")]),
             "evaluations": paths,
             "distinct_nontrivial": len([r for r in confirmed if int(r.get("confirmed_paths", 0)) >= 2]),
             "rule": "evaluations = symbolic execution paths explored by CrossHair over all (obligation, partition) "
